@@ -5,6 +5,7 @@
 #include "hx_json.h"
 #include "iwconv.h"
 #include "iwre.h"
+#include "cregex.h"
 #include "iwini.h"
 #include "iwutils.h"
 #include "iwxstr.h"
@@ -209,8 +210,80 @@ int main(int argc, char **argv) {
       printf("bin2hex "); if (r) hx_print(stdout, hex, strlen(hex)); else printf("null"); printf("\n");
       free(hex); free(b);
     }
+    else if (!strcmp(w[0], "revm") && n >= 4) {
+      // revm <nmatches> <text> <instr>... : run the real VM on a program given as tokens (targets are indices):
+      // M | C<ch> | A | K<64 hex> | N<64 hex> | S<a>,<b> | J<t> | B | E | V<k>
+      int nm = atoi(w[1]); size_t l; char *txt = xbuf(w[2], &l, 1);
+      int ni = n - 3, bad = 0;
+      cregex_program_t *prog = malloc(sizeof(*prog) + sizeof(cregex_program_instr_t) * ni);   // exact size
+      prog->ninstructions = ni;
+      for (int i = 0; i < ni; ++i) {
+        cregex_program_instr_t *in = &prog->instructions[i];
+        memset(in, 0, sizeof(*in));
+        const char *tk = w[3 + i];
+        switch (tk[0]) {
+          case 'M': in->opcode = REGEX_PROGRAM_OPCODE_MATCH; break;
+          case 'C': in->opcode = REGEX_PROGRAM_OPCODE_CHARACTER; in->ch = (char) atoi(tk + 1); break;   // byte value 0..255 -> plain char
+          case 'A': in->opcode = REGEX_PROGRAM_OPCODE_ANY_CHARACTER; break;
+          case 'K': case 'N': {
+            in->opcode = tk[0] == 'K' ? REGEX_PROGRAM_OPCODE_CHARACTER_CLASS : REGEX_PROGRAM_OPCODE_CHARACTER_CLASS_NEGATED;
+            size_t kl; uint8_t *kb = hx_parse(tk + 1, &kl);
+            if (kl != sizeof(cregex_char_class)) bad = 1; else memcpy(in->klass, kb, kl);
+            free(kb); break;
+          }
+          case 'S': { int a = 0, b = 0; if (sscanf(tk + 1, "%d,%d", &a, &b) != 2 || a < 0 || b < 0 || a >= ni || b >= ni) bad = 1;
+            in->opcode = REGEX_PROGRAM_OPCODE_SPLIT; in->first = prog->instructions + a; in->second = prog->instructions + b; break; }
+          case 'J': { int a = atoi(tk + 1); if (a < 0 || a >= ni) bad = 1;
+            in->opcode = REGEX_PROGRAM_OPCODE_JUMP; in->target = prog->instructions + a; break; }
+          case 'B': in->opcode = REGEX_PROGRAM_OPCODE_ASSERT_BEGIN; break;
+          case 'E': in->opcode = REGEX_PROGRAM_OPCODE_ASSERT_END; break;
+          case 'V': in->opcode = REGEX_PROGRAM_OPCODE_SAVE; in->save = atoi(tk + 1); break;
+          default: bad = 1;
+        }
+      }
+      if (bad || nm < 0 || nm > 256) printf("revm bad-program\n");
+      else {
+        const char **mp = malloc(sizeof(char*) * (nm ? nm : 1));
+        memset(mp, 0, sizeof(char*) * (nm ? nm : 1));
+        int r = cregex_program_run(prog, txt, mp, nm);
+        printf("revm %d", r);
+        for (int i = 0; i < nm; ++i) printf(" %d", mp[i] ? (int) (mp[i] - txt) : -1);
+        printf("\n");
+        free(mp);
+      }
+      free(prog); free(txt);
+    }
     // ======================================================== exploration ops (no model)
-    else if ((!strcmp(w[0], "json") || !strcmp(w[0], "js")) && n == 2) {
+    else if (!strcmp(w[0], "recomp") && n == 2) {
+      // recomp <pattern>: the program the real parser + compiler produce, as `revm` tokens
+      size_t l; char *pat = xbuf(w[1], &l, 1);
+      cregex_node_t *node = pat[0] ? cregex_parse(pat) : 0;
+      cregex_program_t *prog = node ? cregex_compile_node(node) : 0;
+      if (!prog) printf("recomp fail\n");
+      else {
+        printf("recomp %d", prog->ninstructions);
+        for (int i = 0; i < prog->ninstructions && i < 3000; ++i) {
+          const cregex_program_instr_t *in = &prog->instructions[i];
+          switch (in->opcode) {
+            case REGEX_PROGRAM_OPCODE_MATCH: printf(" M"); break;
+            case REGEX_PROGRAM_OPCODE_CHARACTER: printf(" C%d", (int) (unsigned char) in->ch); break;
+            case REGEX_PROGRAM_OPCODE_ANY_CHARACTER: printf(" A"); break;
+            case REGEX_PROGRAM_OPCODE_CHARACTER_CLASS: printf(" K"); hx_print(stdout, in->klass, sizeof(in->klass)); break;
+            case REGEX_PROGRAM_OPCODE_CHARACTER_CLASS_NEGATED: printf(" N"); hx_print(stdout, in->klass, sizeof(in->klass)); break;
+            case REGEX_PROGRAM_OPCODE_SPLIT: printf(" S%d,%d", (int) (in->first - prog->instructions), (int) (in->second - prog->instructions)); break;
+            case REGEX_PROGRAM_OPCODE_JUMP: printf(" J%d", (int) (in->target - prog->instructions)); break;
+            case REGEX_PROGRAM_OPCODE_ASSERT_BEGIN: printf(" B"); break;
+            case REGEX_PROGRAM_OPCODE_ASSERT_END: printf(" E"); break;
+            case REGEX_PROGRAM_OPCODE_SAVE: printf(" V%d", in->save); break;
+            default: printf(" ?%d", (int) in->opcode);
+          }
+        }
+        printf("\n");
+      }
+      if (prog) cregex_compile_free(prog);
+      if (node) cregex_parse_free(node);
+      free(pat);
+    } else if ((!strcmp(w[0], "json") || !strcmp(w[0], "js")) && n == 2) {
       size_t l; char *p = xbuf(w[1], &l, 1);
       struct iwpool *pool = iwpool_create(128);
       struct jbl_node *nd = 0;
